@@ -272,7 +272,10 @@ def source_rep(name, shape, vals):
 def np_array(ty, shape, vals, int8=False, rep=0):
     if ty == "String":
         w = max([len(v) for v in vals] + [1])
-        a = np.array([v.decode("ascii") for v in vals], dtype="U%d" % w)
+        if rep in (1, 3):
+            a = np.array(list(vals), dtype="S%d" % w)       # strings held as bytes (what files and parsers deliver)
+        else:
+            a = np.array([v.decode("ascii") for v in vals], dtype="U%d" % w)
     elif ty == "Float32":
         a = np.frombuffer(b"".join(struct.pack("<I", v) for v in vals), "<f4").copy()
     elif ty == "Float64":
